@@ -15,6 +15,23 @@ const USE_GX: &str = "def test_a(gx):\n    pass\n";
 const USE_FX_GX: &str = "def test_b(fx, gx):\n    pass\n";
 const USE_NONE: &str = "def test_a():\n    pass\n";
 const CONF_IMPORT: &str = "from helper import *\n";
+const USE_FX_TWICE_A: &str = "def test_a1(fx):\n    pass\n\ndef test_a2(fx, gx):\n    pass\n";
+const USE_FX_TWICE_B: &str = "def test_b1(fx):\n    pass\n\ndef test_b2(gx, fx):\n    pass\n";
+
+/// Operations run one at a time after quiescence, from EVERY distinct quiescent index (vector
+/// order counted): an interleaving may leave an index that is right as a multiset but that a later,
+/// purely sequential step mishandles.
+fn followups(sc: &Scenario) -> Vec<crate::e1::Op> {
+    if sc.name.starts_with("s11") {
+        vec![analyze("a/test_a.py", USE_FX_TWICE_A), analyze("b/test_b.py", USE_FX_TWICE_B), analyze("a/test_a.py", USE_NONE)]
+    } else if sc.name.starts_with("s2:") {
+        vec![analyze("a/conftest.py", DEF_FX), analyze("b/conftest.py", NOTHING)]
+    } else if sc.name.starts_with("s4") {
+        vec![analyze("test_b.py", USE_FX_GX), analyze("conftest.py", DEF_FX)]
+    } else {
+        vec![]
+    }
+}
 
 pub fn scenarios(thorough: bool) -> Vec<Scenario> {
     let mut v = vec![
@@ -51,6 +68,11 @@ pub fn scenarios(thorough: bool) -> Vec<Scenario> {
                 vec![analyze_fresh("b/conftest.py", DEF_FX_GX)],
                 vec![analyze("c/test_c.py", USE_FX_GX)],
             ],
+        },
+        Scenario {
+            name: "s11: two scan workers on test files that each request fx twice (their reverse-index entries may alternate)".into(),
+            pre: vec![analyze("conftest.py", DEF_FX_GX)],
+            threads: vec![vec![analyze_fresh("a/test_a.py", USE_FX_TWICE_A)], vec![analyze_fresh("b/test_b.py", USE_FX_TWICE_B)]],
         },
     ];
     if thorough {
@@ -135,6 +157,7 @@ pub fn run(rep: &'static Report) {
     let mut total_states = 0usize;
     let mut per: Vec<Value> = Vec::new();
     let mut max_distinct = 0usize;
+    let mut total_follow = 0u64;
     for (collide, pname) in [(true, "Collide"), (false, "Split")] {
         set_placement(collide);
         for sc in &scs {
@@ -146,6 +169,7 @@ pub fn run(rep: &'static Report) {
             };
             let seq = sequential_outcomes(sc);
             let distinct: Mutex<BTreeSet<u64>> = Mutex::new(BTreeSet::new());
+            let quiescent: Mutex<std::collections::BTreeMap<u64, std::sync::Arc<pytest_language_server::FixtureDatabase>>> = Mutex::new(Default::default());
             let stats = explore_scenario(rep, sc, pname, bound, 3_000_000, &|r, choices| {
                 let case = || json!({"scenario": describe(sc), "placement": pname, "choices": choices, "trace": vsched::trace_to_strings(&r.outcome)});
                 if !r.outcome.panics.is_empty() {
@@ -162,6 +186,9 @@ pub fn run(rep: &'static Report) {
                 }
                 if let Some(s) = &r.snapshot {
                     distinct.lock().unwrap().insert(r.ordered);
+                    if let Some(db) = &r.db {
+                        quiescent.lock().unwrap().entry(r.ordered).or_insert_with(|| db.clone());
+                    }
                     for b in &r.invariants {
                         let fp = format!("index invariant broken at quiescence: {}", b.split(' ').take(3).collect::<Vec<_>>().join(" "));
                         if !rep.count_if_seen(&fp) {
@@ -184,6 +211,40 @@ pub fn run(rep: &'static Report) {
                     }
                 }
             });
+            // follow-up operations from every distinct quiescent index
+            let mut follow_checked = 0u64;
+            for f in followups(sc) {
+                let want = crate::e1::sequential_outcomes_then(sc, &f);
+                for (_k, db) in quiescent.lock().unwrap().iter() {
+                    let (db2, f2) = (db.clone(), f.clone());
+                    let (s, inv) = crate::seed::on_fresh_thread(move || {
+                        let copy = std::sync::Arc::new(crate::db::deep_clone(&db2));
+                        (f2.f)(&copy);
+                        (crate::e1::snap(&copy), crate::db::index_invariants(&copy, crate::ws::ROOT))
+                    });
+                    follow_checked += 1;
+                    for b in &inv {
+                        let fp = format!("index invariant broken after a sequential follow-up operation: {}", b.split(' ').take(3).collect::<Vec<_>>().join(" "));
+                        if !rep.count_if_seen(&fp) {
+                            rep.violation(&fp, &format!("{} — scenario {} [{}] then {}", b, sc.name, pname, f.desc), || json!({"scenario": describe(sc), "placement": pname, "then": f.desc}));
+                        }
+                    }
+                    if !want.contains(&s) {
+                        let best = want.iter().min_by_key(|q| q.iter().filter(|l| !s.contains(l)).count() + s.iter().filter(|l| !q.contains(l)).count()).unwrap();
+                        let lost: Vec<&String> = best.iter().filter(|l| !s.contains(l)).collect();
+                        let extra: Vec<&String> = s.iter().filter(|l| !best.contains(l)).collect();
+                        let kind = |l: &&String| l.split(' ').next().unwrap_or("").to_string();
+                        let mut kinds: Vec<String> = lost.iter().map(|l| format!("lost-{}", kind(l))).chain(extra.iter().map(|l| format!("extra-{}", kind(l)))).collect();
+                        kinds.sort();
+                        kinds.dedup();
+                        let fp = format!("after a concurrent analysis a later sequential re-analysis leaves an index no sequential history produces: {}", kinds.join(","));
+                        if !rep.count_if_seen(&fp) {
+                            rep.violation(&fp, &format!("scenario {} [{}] then {}: lost {:?}, extra {:?}", sc.name, pname, f.desc, lost, extra), || json!({"scenario": describe(sc), "placement": pname, "then": f.desc}));
+                        }
+                    }
+                }
+            }
+            total_follow += follow_checked;
             total_sched += stats.schedules;
             total_points += stats.points;
             total_states += stats.distinct_states;
@@ -244,12 +305,13 @@ pub fn run(rep: &'static Report) {
     rep.set("transitions", total_points);
     rep.set("evaluations", total_sched);
     rep.set("schedules", total_sched);
+    rep.set("followup_checks_from_distinct_quiescent_indexes", total_follow);
     rep.set("distinct_nontrivial", per.iter().filter(|p| p["distinct_quiescent_indexes_incl_vector_order"].as_u64().unwrap_or(0) >= 2).count() as u64 + per.len() as u64);
     rep.set("traces_validated_against_impl", total_sched);
     rep.set("per_scenario", json!(per));
     rep.set("exhaustive", true);
     rep.sample(json!({"scenario": describe(&scs[0]), "example_schedule_trace": vsched::trace_to_strings(&run_schedule(&scs[0], &[0, 0, 0, 1], 100000).outcome)}));
-    rep.set("rule", "for every scenario (sequential pre-state, then 2–3 model threads each analysing a distinct file; fixture names fx/gx shared on purpose) and both key placements (Collide: every key of a map in one shard; Split: 2 shards by hash): EVERY schedule with at most P preemptions, scheduling points = thread start, every DashMap shard-lock acquisition of the real code (vendored dashmap hooks), thread end; every execution runs the real analyze_file / analyze_file_fresh to completion; at quiescence the index (definitions, file_definitions, usages, usage_by_fixture, file_cache, imports as multisets) must equal the result of SOME sequential order of the same operations and satisfy the structural invariants (no dangling/empty entries, reverse indexes mirror forward maps); states = distinct scheduler states (per-thread progress + lock table), transitions = scheduling points executed; every schedule is an execution of the implementation (traces_validated)");
+    rep.set("rule", "for every scenario (sequential pre-state, then 2–3 model threads each analysing a distinct file; fixture names fx/gx shared on purpose) and both key placements (Collide: every key of a map in one shard; Split: 2 shards by hash): EVERY schedule with at most P preemptions, scheduling points = thread start, every DashMap shard-lock acquisition of the real code (vendored dashmap hooks), thread end; every execution runs the real analyze_file / analyze_file_fresh to completion; at quiescence the index (definitions, file_definitions, usages, usage_by_fixture, file_cache, imports as multisets) must equal the result of SOME sequential order of the same operations and satisfy the structural invariants (no dangling/empty entries, reverse indexes mirror forward maps); for three scenarios, from EVERY distinct quiescent index (counting vector order) follow-up re-analyses are run one at a time and must again give an index some sequential history gives; states = distinct scheduler states (per-thread progress + lock table), transitions = scheduling points executed; every schedule is an execution of the implementation (traces_validated)");
     rep.assume("DashMap 6.1 shard lock modelled as reader-preferring RwLock (verified against vendored source); definitions_version is only fetch_add'ed by analysis (commutative); std Mutex sections contain no DashMap call in these scenarios (no venv)");
 }
 
